@@ -69,10 +69,11 @@ SCLAUSE = {1: "connected-exactly-once", 2: "disconnected-once-after-connected", 
 VNAMES = {31: "addConn.call", 32: "addConn.ret", 9: "Connected.begin", 10: "Connected.end", 11: "Disconnected.begin",
           12: "Disconnected.end", 33: "transportClose.begin", 34: "transportClose.end", 35: "AcceptStream", 36: "Conn.Close.call",
           14: "Pub", 37: "Swarm.Close.call", 38: "Swarm.Close.ret", 42: "Swarm.Close(2nd).call", 43: "Swarm.Close(2nd).ret", 39: "SeenListed", 40: "ObsConnectedness", 41: "ObsListed",
-          15: "Quiesce", 16: "Stuck"}
+          15: "Quiesce", 16: "Stuck", 44: "AcceptStream.returnedStream", 46: "StreamHandler", 47: "ConnsToPeer.listed"}
 VCLAUSE = {1: "connected-exactly-once", 2: "disconnected-once-after-connected", 3: "swarm-close-waits", 4: "no-repeated-state",
-           5: "quiescence(truthful: last event / Connectedness / listed conns)", 6: "stuck", 7: "stream-loop-before-connected",
-           8: "disconnected-before-transport-closed", 9: "swarm-close-returned-before-admitted-conn-was-notified"}
+           5: "quiescence(truthful: last event / Connectedness / listed conns)", 6: "stuck", 7: "stream-loop/inbound-stream-before-connected-returned",
+           8: "disconnected-before-transport-closed", 9: "swarm-close-returned-before-admitted-conn-was-notified",
+           11: "untruthful-listing(listed after Disconnected began / refused / announced-unclosed conn not listed)"}
 CST = {0: "NotConnected", 1: "Connected", 4: "Limited"}
 NAMES = {1: "Reg", 2: "Unreg", 3: "AddCall", 4: "AddRet", 5: "RemCall", 6: "RemRet", 7: "CloseCall", 8: "CloseRet",
          9: "ConnB", 10: "ConnE", 11: "DiscB", 12: "DiscE", 13: "Read", 14: "Pub", 15: "Quiesce", 16: "Stuck"}
@@ -110,7 +111,7 @@ def vshow(lb):
         return "%s(c%d,%s)" % (n, x, "ok" if y else "error")
     if code in (14, 40):
         return "%s(p%d,%s)" % (n, x, CST.get(y, y))
-    if code == 41:
+    if code in (41, 47):
         return "%s(c%d,%s)" % (n, x, "yes" if y else "no")
     if code in (37, 38, 42, 43, 15, 16):
         return n
